@@ -49,14 +49,15 @@ ASSUMPTIONS = [
     "ordering, repr, assignment and deletion (hook traces), evolve, asdict/astuple, copy/deepcopy/pickle (protocols 0-5) are "
     "compared between the two builds directly: an observed relation (their models live in C03/C04/C06/C09-C13)",
     "meta: the two builds differ only in the leaf's `slots`. Not compared: serialization of instances with unset fields "
-    "(C10's precondition) and of exception classes (BaseException.__reduce__, not attrs, copies them); serialization when "
-    "the dict build resolves a base's attrs-generated __getstate__ that lacks its fields or its hash cache (K4 of C10); hash "
-    "and serialization when the dict build is a frozen caching class below a slotted caching class (K2 of C04/C10); pickling "
-    "of a hash-caching class without any field (protocols 0/1 drop the empty state, see report). getstate_setstate=False on "
-    "slotted classes (K11 of C10) and the 'slotted confused' hierarchy (K6; struct part only) are not generated there",
+    "(C10's precondition) and of exception classes (BaseException.__reduce__, not attrs, copies them); hash and "
+    "serialization when the dict build is a frozen caching class below a slotted caching class (K2 of C04/C10); evolve on "
+    "a leaf with init=False (cls(...) then runs an inherited __init__; out of scope as in C12). The "
+    "'slotted confused' shape (hooked attrs class <- plain class <- leaf) IS generated: it is known finding K6 here, recognised "
+    "from the __attrs_own_setattr__ flags along the leaf's MRO. getstate_setstate=False on "
+    "slotted classes (K11 of C10) is not generated there",
 ]
 EXHAUSTIVE = {"quick": False, "thorough": False}
-BUDGET_S = {"quick": 24, "thorough": 400}
+BUDGET_S = {"quick": 26, "thorough": 380}
 PARALLEL = True
 LEVEL_TEXT = "see below"
 
@@ -639,14 +640,14 @@ LEVEL_TEXT = (
     "__slots__, a cached property or a shadowed __getattr__ is the identical object in the new dict), C08_slots_exact, "
     "C08_reused_sound, C08_one_slot, C08_weakref_iff, C08_no_dict_iff, C08_unknown_attr_rejected, C08_cells_rebound / "
     "C08_cells_rebound_kinds / C08_cells_exact (exactly the cells of plain functions, class/staticmethod __func__, property "
-    "*getters*, the generated __getattr__, cached-property functions and the shadowed __getattr__ are rewritten, only if they "
-    "held the original class; setters/deleters only when they share a cell -- known finding K08a), C08_calls_new, "
+    "getters, setters and deleters (after the K08a repair), the generated __getattr__, cached-property functions and the "
+    "shadowed __getattr__ are rewritten, only if they held the original class), C08_calls_new, "
     "C08_cached_once (two-state machine over arbitrary read histories), C08_init_subclass_once, C08_init_subclass_chain (dict "
     "and slotted builds, subclasses of subclasses), C08_setattr_reset (the inherited-hook reset as a decision and when it "
     "agrees with the dict build; K6 otherwise), C08_metamorphic (the initializer model's signature, annotations, outcome, "
     "values, callback trace and exception args do not depend on `slots` under slot-belief = slot-truth, malformed calls and "
-    "single faults included; K3 can only hit the dict build: C08_slotted_never_misplaces), C08_model_meets_spec, witnesses "
-    "for K08a, K08b, K6, K3. Tied to /repo by differential correspondence: structural cases observing "
+    "single faults included; K3 can only hit the dict build: C08_slotted_never_misplaces), C08_meta_reset (writing an own __setattr__ does not depend on `slots`; K6 for pairs exactly when direct-base flag != MRO-resolved flag), C08_model_meets_spec, witnesses "
+    "for K6 (struct and meta) and K3, regression theorems for the repaired K08a / K08b (C08_fixed_*). Tied to /repo by differential correspondence: structural cases observing "
     "type/name/qualname/module/doc/bases (CPython's class creation: observed, not proved), identity of every class attribute, "
     "__slots__, re-used base descriptors, number of slots per own field, __dict__ / weakref / unknown-attribute behaviour, every "
     "closure cell and the result of calling every function, cached-property histories on two instances, "
